@@ -149,6 +149,32 @@ def denOrd (root : Node) (strict : Bool) : List Op → Nat → Pos → Ranked
     if c == some 0 then .err d .value
     else flatMapR (denOrd root strict r (d + 1)) ((pySlice (kidsAt root el).length a b c).map (fun i => el ++ [i]))
 
+/-! ### spec B with the precedence of errors: the AST read depth-first
+
+`denote` applies each step to the WHOLE selection before the next step, so when two steps fail on
+different elements it meets the error of the earlier STEP first — a third order, neither the code's
+nor `denOrd`'s.  `denoteStepsR` reads the same AST one element at a time and ranks errors exactly as
+`denOrd` does: every error carries the number of bracket steps (`[a:b:c]`, `[-n]`: the steps that
+select among the children of an element) passed before it; the smaller number wins, on a tie the
+error that is earlier in sequence order.  Where only one kind of error can arise it forgets to
+`denote` (`denoteR_forget_of_uni`). -/
+
+/-- a bracket step that selects among the children (compiled to a SLICE operation) -/
+def Step.isSlice : Step → Bool
+  | .negidx _ => true
+  | .slice _ _ _ => true
+  | _ => false
+
+def denoteStepsR (root : Node) (strict : Bool) : List Step → Nat → Pos → Ranked
+  | [], _, el => .ok [el]
+  | s :: rest, d, el =>
+    match stepDen root strict s el with
+    | .error e => .err d e
+    | .ok next => flatMapR (denoteStepsR root strict rest (if s.isSlice then d + 1 else d)) next
+
+def denoteR (p : Path) (root : Node) (el : Pos) (strict : Bool) : Ranked :=
+  denoteStepsR root strict p.steps 0 (if p.top then [] else el)
+
 /-- the `single=` table of `find` -/
 def singleOf (strict : Bool) (r : Except Err (List Pos)) : FindRes :=
   match r with
@@ -160,6 +186,13 @@ def singleOf (strict : Bool) (r : Except Err (List Pos)) : FindRes :=
 def findSpec (p : Path) (root : Node) (el : Pos) (single strict : Bool) : FindRes :=
   if single then singleOf strict (denote p root el strict)
   else match denote p root el strict with
+    | .error e => .err e
+    | .ok l => .many l
+
+/-- `findSpec` over the ranked reading: which exception `find` raises is part of the statement -/
+def findSpecR (p : Path) (root : Node) (el : Pos) (single strict : Bool) : FindRes :=
+  if single then singleOf strict (denoteR p root el strict).forget
+  else match (denoteR p root el strict).forget with
     | .error e => .err e
     | .ok l => .many l
 
